@@ -209,6 +209,30 @@ theorem marshal_tags_ok :
     (Facts.C11.tags_xlsxF.drop 1).all (fun f => f.2.2.endsWith ",attr,omitempty\"" || f.2.1.startsWith "*") = true := by
   refine ⟨by decide, by decide, by decide, by decide, by decide, by decide +kernel⟩
 
+/-! ## row attributes (height, hidden, outline level, style) -/
+
+/-- **row_attrs_eq_memory.** An accepted SetRow writes, on its `<row>` element, exactly the serialisation of
+`rowAttrList o`; and as a finite map (attribute name → value) that list equals what `encoding/xml` marshals for the
+`xlsxRow` the in-memory setters build from the same options (`SetRowStyle` → `s`+`customFormat`, `SetRowHeight` →
+`ht`+`customHeight`, `SetRowOutlineLevel` → `outlineLevel`, `SetRowVisible(false)` → `hidden`), whose struct order differs
+(`hidden` precedes `customHeight`). -/
+theorem row_attrs_eq_memory (x : Ext) (cfg : Cfg) (s : SW) (cell : Bytes) (values : List Item) (o : RowOpts)
+    (h : (setRow x cfg s cell values o).2 = none) :
+    (∃ rec_ ∈ (setRow x cfg s cell values o).1.log, rec_.attrs = renderAttrs (rowAttrList o)) ∧
+    ∀ k, attrOf (rowAttrList o) k = attrOf (marshalRowAttrs (Spec.rowRec o)) k := by
+  obtain ⟨col, row, attrs, cells, _, _, hm, _, _, _, _, _, hlog, _⟩ := setRow_accepted x cfg s cell values o h
+  refine ⟨⟨{ row := row, attrs := attrs, cells := cells }, by rw [hlog]; simp, ?_⟩, rowAttrs_eq_memory o⟩
+  exact marshalAttrs_renders o attrs hm
+
+/-- the struct tags of `xlsxRow` the row marshaller model follows (regenerated) -/
+theorem row_tags_ok :
+    (Facts.C11.tags_xlsxRow.map (fun f => (f.1, f.2.2))).take 9 =
+      [("C", "xml:\"c\""), ("R", "xml:\"r,attr,omitempty\""), ("Spans", "xml:\"spans,attr,omitempty\""),
+       ("S", "xml:\"s,attr,omitempty\""), ("CustomFormat", "xml:\"customFormat,attr,omitempty\""),
+       ("Ht", "xml:\"ht,attr\""), ("Hidden", "xml:\"hidden,attr,omitempty\""),
+       ("CustomHeight", "xml:\"customHeight,attr,omitempty\""), ("OutlineLevel", "xml:\"outlineLevel,attr,omitempty\"")] := by
+  decide
+
 /-! ## Flush: the part after `sheetData` in schema order -/
 
 /-- indices of the `xlsxWorksheet` fields in the order the stream writer emits them: prolog, pre-data, `cols` and
